@@ -147,7 +147,7 @@ int main(int argc, char **argv)
               if (cvp) cvp->add_bias_force(colvarvalue(fnow));
               return COLVARS_OK;
             };
-            if (px->config(conf) != 0) { fprintf(stderr, "HARNESS-ERROR: config rejected: %s\n", px->errtxt.c_str()); exit(2); }
+            if (px->config(conf) != 0) { fprintf(stderr, "HARNESS-ERROR: config rejected: %s\n", px->errtxt.c_str()); exit(3); }
           };
           std::deque<double> rng0;
           for (int k = 0; k < 3; k++) for (int i = 0; i < 12; i++) rng0.push_back(NOISE[i]);
@@ -312,7 +312,7 @@ int main(int argc, char **argv)
         px->set_integration_timestep(dt);
         px->x[1] = cvm::rvector(2.0, 0, 0);
         Par p{0.2, 40.0, dt, 0.0, 0, false};
-        if (px->config(conf_text(p)) != 0) { fprintf(stderr, "HARNESS-ERROR: energy config rejected\n"); exit(2); }
+        if (px->config(conf_text(p)) != 0) { fprintf(stderr, "HARNESS-ERROR: energy config rejected\n"); exit(3); }
         colvar *cv = px->cv("d");
         double e0 = 0, emax = 0, first_half = 0, second_half = 0;
         for (int s = 0; s < n; s++) {
